@@ -437,8 +437,8 @@ def _dunder(interp, obj, name, args, node):
     if isinstance(obj.cls, ClassInfo):
         owner, found = obj.cls.find_method(name)
         if isinstance(found, list):
-            f = VFunc(found[-1], owner.module, None, f"{owner.name}.{name}", owner)
-            return interp.call(f.bind(obj), args, {}, node)
+            # through the normal attribute protocol, so that the method's real decorators are applied
+            return interp.call(interp.class_attr(obj, name, node), args, {}, node)
         if owner is not None and not isinstance(owner, ClassInfo):
             return interp.call(foreign_method(interp, obj, owner, name, node), args, {}, node)
     if obj.model is not None:
@@ -1668,7 +1668,7 @@ def _id(it, a, k, n):
 def _re_in(it, a, k, n):
     """spec helper: re_in(s, pattern) -- s fully matches the (ASCII-mode) pattern"""
     from . import rx
-    s_ = a[0]
+    s_ = a[0].val if isinstance(a[0], VOpt) else a[0]
     pat = concrete_str(a[1].z)
     R, _, _, _ = rx.lang(VRegex(pat, 256, s_.kind == "bytes"))
     return VBool(z3.InRe(s_.z, R))
@@ -1677,7 +1677,8 @@ def _re_in(it, a, k, n):
 def _str_to_int(it, a, k, n):
     """spec helper: int(s) for s in -?[0-9]+ (the abstract value function of the trusted int() spec)"""
     from . import strlib
-    return VInt(strlib.INT_VAL(a[0].z, z3.IntVal(10)))
+    s_ = a[0].val if isinstance(a[0], VOpt) else a[0]
+    return VInt(strlib.INT_VAL(s_.z, z3.IntVal(10)))
 
 
 def _idna_ok(it, a, k, n):
